@@ -340,6 +340,19 @@ def heredoc_corpus():
                 body = b if op == "<<" else "".join("\t" + ln + "\n" for ln in b.split("\n")[:-1])
                 for first, rest in ctxs:
                     out.append(first.replace("{H}", op + q) + "\n" + body + ("\t" if op == "<<-" else "") + "E\n" + rest)
+    # here-documents pending on two nesting levels at once (same and distinct delimiters), announced before and inside the
+    # condition of a multi-line compound command
+    for d1, d2 in (("EOF", "EOF"), ("A", "B")):
+        for link in ("|", "&&", "||", ";"):
+            for head, tail in (("while cat <<%s; do" % d2, "\ttrue\ndone\n"), ("until cat <<%s; do" % d2, "\ttrue\ndone\n"),
+                               ("if cat <<%s; then" % d2, "\ttrue\nfi\n"), ("if a; then b; elif cat <<%s; then" % d2, "\tc\nfi\n"),
+                               ("{ cat <<%s;" % d2, "\ttrue\n}\n"), ("(cat <<%s" % d2, "\ttrue\n)\n")):
+                out.append("cat <<%s %s %s\na\n%s\nb\n%s\n%s" % (d1, link, head, d1, d2, tail))
+    # a here-document operator whose body never comes (the substitution closes on the same line), inside multi-line
+    # arithmetic and inside a here-document body
+    for sub in ("$(cat <<E)", "`cat <<-E`", "$(cat <<E | b)"):
+        out += ["echo $((\n%s + 1\n))\n" % sub, "((\n%s + 1\n))\n" % sub, "echo $((1 +\n%s))\n" % sub, "cat <<A\n%s\nA\n" % sub,
+                "cat <<A\nfoo %s bar\nA\n" % sub, "echo %s\n" % sub, "if a; then\n cat <<A\n%s\nA\nfi\n" % sub, "x=\"%s\"\n" % sub]
     # two here-documents on one line, the second body with a multi-line expansion
     for first, rest in ctxs[:6]:
         out.append(first.replace("{H}", "<<A <<B") + "\n1\nA\n$(\n\tx\n)\nB\n" + rest)
